@@ -27,6 +27,17 @@ pub fn parse_model(
         sequence::{pair, terminated},
     };
 
+    // Questions and trees are plain ASCII text; other bytes are rejected here because nom's
+    // character parsers on byte input index past the end on a trailing non-ASCII byte.
+    let is_ascii_text = tree_range
+        .1
+        .checked_add(1)
+        .and_then(|end| input.get(tree_range.0..end))
+        .map_or(true, |section| section.is_ascii());
+    if !is_ascii_text {
+        return Err(ModelParseError::NonAsciiTree);
+    }
+
     let (_, (questions, trees)) = parse_all(
         terminated(
             pair(QuestionParser::parse_questions, TreeParser::parse_trees),
